@@ -216,24 +216,25 @@ type readerCmd struct {
 }
 
 type runner struct {
-	h      *History
-	strict bool // C07 oracles enforced
-	trace  bool
-	mu     sync.Mutex
-	t0     time.Time
-	lg     *log.Logger
-	rtr    router.Router
-	hold   *holds
-	sess   []*sess
-	bySid  map[wamp.ID]*sess
-	calls  map[string]*callRec
-	events map[string]map[int]*expect
-	exps   []*expect
-	subs   map[string]map[string]map[int]wamp.ID // realm -> topic -> session -> subscription
-	regs   map[string]map[string]*sess           // realm -> proc -> callee
-	regIDs map[int]map[string]wamp.ID            // session -> proc -> registration
-	realms map[string]bool                       // live realms
-	relAt  []chan struct{}                       // authz "close" holds
+	h       *History
+	strict  bool // C07 oracles enforced
+	trace   bool
+	mu      sync.Mutex
+	t0      time.Time
+	lg      *log.Logger
+	rtr     router.Router
+	hold    *holds
+	sess    []*sess
+	bySid   map[wamp.ID]*sess
+	calls   map[string]*callRec
+	events  map[string]map[int]*expect
+	exps    []*expect
+	subs    map[string]map[string]map[int]wamp.ID // realm -> topic -> session -> subscription
+	regs    map[string]map[string]*sess           // realm -> proc -> callee
+	regIDs  map[int]map[string]wamp.ID            // session -> proc -> registration
+	everReg map[string][]*sess                    // realm|proc -> sessions that ever asked to register it
+	realms  map[string]bool                       // live realms
+	relAt   []chan struct{}                       // authz "close" holds
 
 	fails      []Failure
 	abort      bool
@@ -301,7 +302,7 @@ func runHistory(t *testing.T, h *History, trace bool, partial func(*Result)) *Re
 	r := &runner{h: h, strict: h.Prop == "C07", trace: trace, partial: partial,
 		bySid: map[wamp.ID]*sess{}, calls: map[string]*callRec{}, events: map[string]map[int]*expect{},
 		subs: map[string]map[string]map[int]wamp.ID{}, regs: map[string]map[string]*sess{},
-		regIDs: map[int]map[string]wamp.ID{}, realms: map[string]bool{}, why: map[string]bool{},
+		regIDs: map[int]map[string]wamp.ID{}, everReg: map[string][]*sess{}, realms: map[string]bool{}, why: map[string]bool{},
 		fullPrev: map[int]bool{}, fullEver: map[int]bool{}, lastCount: map[int]int{},
 		opsByKind: map[string]int{}, unstable: map[int]bool{}, closeStart: -1, closeRet: -1, lastStalled: -1,
 		hold: newHolds(), lg: log.New(io.Discard, "", 0)}
